@@ -707,3 +707,193 @@ pub const HEADERS: &[HeaderType] = &[
     HeaderType { name: "Icmpv4Header", gen: g_icmp4, from_slice: s_icmp4, read: r_icmp4, param_bytes: 0, mask: ident },
     HeaderType { name: "Icmpv6Header", gen: g_icmp6, from_slice: s_icmp6, read: r_icmp6, param_bytes: 0, mask: ident },
 ];
+
+// ------------------------------------------------------------------------------------------------
+// writers (C16): decode a value from generated bytes, then write it into an instrumented writer
+// ------------------------------------------------------------------------------------------------
+
+/// outcome of a write: Ok, Io(kind, message) or another (content) error
+#[derive(Clone, Debug, PartialEq, Eq)]
+pub enum WOut {
+    Ok,
+    Io(String),
+    Other(String),
+}
+
+fn wio(e: std::io::Error) -> WOut {
+    WOut::Io(format!("{:?}:{}", e.kind(), e))
+}
+
+pub type WriteFn = fn(&[u8], &mut dyn std::io::Write) -> Option<WOut>;
+/// returns (result, required_len reported on a space error, rest length on success)
+pub type SliceWriteFn = fn(&[u8], &mut [u8]) -> Option<Result<usize, (usize, usize)>>;
+
+pub struct WriterType {
+    pub name: &'static str,
+    pub gen: fn(&mut Prng) -> Vec<u8>,
+    pub write: WriteFn,
+    pub write_to_slice: Option<SliceWriteFn>,
+    /// number of separate parts the writer emits (header + extensions …), for the evidence
+    pub multi_part: bool,
+}
+
+macro_rules! plain_writer {
+    ($fname:ident, $ty:ty, $from:expr) => {
+        fn $fname(b: &[u8], w: &mut dyn std::io::Write) -> Option<WOut> {
+            let h: $ty = $from(b)?;
+            let mut w = w;
+            Some(match h.write(&mut w) {
+                Ok(()) => WOut::Ok,
+                Err(e) => wio(e),
+            })
+        }
+    };
+}
+
+plain_writer!(w_eth, Ethernet2Header, |b| Ethernet2Header::from_slice(b).ok().map(|x| x.0));
+plain_writer!(w_sll, LinuxSllHeader, |b| LinuxSllHeader::from_slice(b).ok().map(|x| x.0));
+plain_writer!(w_vlan, SingleVlanHeader, |b| SingleVlanHeader::from_slice(b).ok().map(|x| x.0));
+plain_writer!(w_macsec, MacsecHeader, |b| MacsecHeader::from_slice(b).ok());
+plain_writer!(w_arp, ArpPacket, |b| ArpPacket::from_slice(b).ok());
+plain_writer!(w_ipv4, Ipv4Header, |b| Ipv4Header::from_slice(b).ok().map(|x| x.0));
+plain_writer!(w_ipv6, Ipv6Header, |b| Ipv6Header::from_slice(b).ok().map(|x| x.0));
+plain_writer!(w_auth, IpAuthHeader, |b| IpAuthHeader::from_slice(b).ok().map(|x| x.0));
+plain_writer!(w_raw_ext, Ipv6RawExtHeader, |b| Ipv6RawExtHeader::from_slice(b).ok().map(|x| x.0));
+plain_writer!(w_frag, Ipv6FragmentHeader, |b| Ipv6FragmentHeader::from_slice(b).ok().map(|x| x.0));
+plain_writer!(w_udp, UdpHeader, |b| UdpHeader::from_slice(b).ok().map(|x| x.0));
+plain_writer!(w_tcp, TcpHeader, |b| TcpHeader::from_slice(b).ok().map(|x| x.0));
+plain_writer!(w_icmp4, Icmpv4Header, |b| Icmpv4Header::from_slice(b).ok().map(|x| x.0));
+plain_writer!(w_icmp6, Icmpv6Header, |b| Icmpv6Header::from_slice(b).ok().map(|x| x.0));
+
+fn w_ipv4_raw(b: &[u8], w: &mut dyn std::io::Write) -> Option<WOut> {
+    let h = Ipv4Header::from_slice(b).ok()?.0;
+    let mut w = w;
+    Some(match h.write_raw(&mut w) {
+        Ok(()) => WOut::Ok,
+        Err(e) => wio(e),
+    })
+}
+fn w_link_header(b: &[u8], w: &mut dyn std::io::Write) -> Option<WOut> {
+    let h = if b.first().map(|x| x & 1 == 0).unwrap_or(true) {
+        LinkHeader::Ethernet2(Ethernet2Header::from_slice(b).ok()?.0)
+    } else {
+        // reuse the bytes as an SLL header if they happen to be valid, else Ethernet
+        match LinuxSllHeader::from_slice(b) {
+            Ok(x) => LinkHeader::LinuxSll(x.0),
+            Err(_) => LinkHeader::Ethernet2(Ethernet2Header::from_slice(b).ok()?.0),
+        }
+    };
+    let mut w = w;
+    Some(match h.write(&mut w) {
+        Ok(()) => WOut::Ok,
+        Err(e) => wio(e),
+    })
+}
+fn w_transport_header(b: &[u8], w: &mut dyn std::io::Write) -> Option<WOut> {
+    let h = match b.first().map(|x| x % 4).unwrap_or(0) {
+        0 => TransportHeader::Udp(UdpHeader::from_slice(b).ok()?.0),
+        1 => TransportHeader::Tcp(TcpHeader::from_slice(b).ok()?.0),
+        2 => TransportHeader::Icmpv4(Icmpv4Header::from_slice(b).ok()?.0),
+        _ => TransportHeader::Icmpv6(Icmpv6Header::from_slice(b).ok()?.0),
+    };
+    let mut w = w;
+    Some(match h.write(&mut w) {
+        Ok(()) => WOut::Ok,
+        Err(e) => wio(e),
+    })
+}
+fn w_ipv4_exts(b: &[u8], w: &mut dyn std::io::Write) -> Option<WOut> {
+    if b.is_empty() {
+        return None;
+    }
+    let (e, _, _) = Ipv4Extensions::from_slice(IpNumber(b[0]), &b[1..]).ok()?;
+    let mut w = w;
+    Some(match e.write(&mut w, IpNumber(b[0])) {
+        Ok(()) => WOut::Ok,
+        Err(err::ipv4_exts::HeaderWriteError::Io(e)) => wio(e),
+        Err(err::ipv4_exts::HeaderWriteError::Content(c)) => WOut::Other(format!("{:?}", c)),
+    })
+}
+fn w_ipv6_exts(b: &[u8], w: &mut dyn std::io::Write) -> Option<WOut> {
+    if b.is_empty() {
+        return None;
+    }
+    let (e, _, _) = Ipv6Extensions::from_slice(IpNumber(b[0]), &b[1..]).ok()?;
+    let mut w = w;
+    Some(match e.write(&mut w, IpNumber(b[0])) {
+        Ok(()) => WOut::Ok,
+        Err(err::ipv6_exts::HeaderWriteError::Io(e)) => wio(e),
+        Err(err::ipv6_exts::HeaderWriteError::Content(c)) => WOut::Other(format!("{:?}", c)),
+    })
+}
+fn w_ip_headers(b: &[u8], w: &mut dyn std::io::Write) -> Option<WOut> {
+    let (h, _) = IpHeaders::from_slice(b).ok()?;
+    let mut w = w;
+    Some(match h.write(&mut w) {
+        Ok(()) => WOut::Ok,
+        Err(err::ip::HeadersWriteError::Io(e)) => wio(e),
+        Err(o) => WOut::Other(format!("{:?}", o)),
+    })
+}
+
+fn sw_eth(b: &[u8], out: &mut [u8]) -> Option<Result<usize, (usize, usize)>> {
+    let h = Ethernet2Header::from_slice(b).ok()?.0;
+    Some(match h.write_to_slice(out) {
+        Ok(rest) => Ok(rest.len()),
+        Err(e) => Err((e.required_len, e.len)),
+    })
+}
+fn sw_sll(b: &[u8], out: &mut [u8]) -> Option<Result<usize, (usize, usize)>> {
+    let h = LinuxSllHeader::from_slice(b).ok()?.0;
+    Some(match h.write_to_slice(out) {
+        Ok(rest) => Ok(rest.len()),
+        Err(e) => Err((e.required_len, e.len)),
+    })
+}
+
+fn g_link_header(rng: &mut Prng) -> Vec<u8> {
+    if rng.bool() {
+        let mut b = g_eth(rng);
+        if !b.is_empty() {
+            b[0] &= 0xfe;
+        }
+        b
+    } else {
+        let mut b = g_sll(rng);
+        if !b.is_empty() {
+            b[0] |= 1;
+        }
+        b
+    }
+}
+fn g_transport_header(rng: &mut Prng) -> Vec<u8> {
+    match rng.below(4) {
+        0 => g_udp(rng),
+        1 => g_tcp(rng),
+        2 => g_icmp4(rng),
+        _ => g_icmp6(rng),
+    }
+}
+
+pub const WRITERS: &[WriterType] = &[
+    WriterType { name: "Ethernet2Header", gen: g_eth, write: w_eth, write_to_slice: Some(sw_eth), multi_part: false },
+    WriterType { name: "LinuxSllHeader", gen: g_sll, write: w_sll, write_to_slice: Some(sw_sll), multi_part: false },
+    WriterType { name: "SingleVlanHeader", gen: g_vlan, write: w_vlan, write_to_slice: None, multi_part: false },
+    WriterType { name: "MacsecHeader", gen: g_macsec, write: w_macsec, write_to_slice: None, multi_part: false },
+    WriterType { name: "ArpPacket", gen: g_arp, write: w_arp, write_to_slice: None, multi_part: false },
+    WriterType { name: "Ipv4Header", gen: g_ipv4, write: w_ipv4, write_to_slice: None, multi_part: true },
+    WriterType { name: "Ipv4Header(write_raw)", gen: g_ipv4, write: w_ipv4_raw, write_to_slice: None, multi_part: true },
+    WriterType { name: "Ipv6Header", gen: g_ipv6, write: w_ipv6, write_to_slice: None, multi_part: false },
+    WriterType { name: "IpAuthHeader", gen: g_auth, write: w_auth, write_to_slice: None, multi_part: true },
+    WriterType { name: "Ipv6RawExtHeader", gen: g_raw_ext, write: w_raw_ext, write_to_slice: None, multi_part: false },
+    WriterType { name: "Ipv6FragmentHeader", gen: g_frag, write: w_frag, write_to_slice: None, multi_part: false },
+    WriterType { name: "Ipv4Extensions", gen: g_ipv4_exts, write: w_ipv4_exts, write_to_slice: None, multi_part: true },
+    WriterType { name: "Ipv6Extensions", gen: g_ipv6_exts, write: w_ipv6_exts, write_to_slice: None, multi_part: true },
+    WriterType { name: "IpHeaders", gen: g_ip_headers, write: w_ip_headers, write_to_slice: None, multi_part: true },
+    WriterType { name: "UdpHeader", gen: g_udp, write: w_udp, write_to_slice: None, multi_part: false },
+    WriterType { name: "TcpHeader", gen: g_tcp, write: w_tcp, write_to_slice: None, multi_part: true },
+    WriterType { name: "Icmpv4Header", gen: g_icmp4, write: w_icmp4, write_to_slice: None, multi_part: false },
+    WriterType { name: "Icmpv6Header", gen: g_icmp6, write: w_icmp6, write_to_slice: None, multi_part: false },
+    WriterType { name: "LinkHeader", gen: g_link_header, write: w_link_header, write_to_slice: None, multi_part: false },
+    WriterType { name: "TransportHeader", gen: g_transport_header, write: w_transport_header, write_to_slice: None, multi_part: false },
+];
